@@ -40,6 +40,12 @@ class World:
         self.vk = vkernel.VK()
         self.vk.table = self.t
         self.vk.mount("/vproc", self.t)
+        # another system's procfs (a container's, the host's): its own boot time, its own processes
+        self.tB = ProcTable(btime=B0 + 7777, ncpu=ncpu, self_pid=2)
+        self.tB.spawn(1, 3, ppid=0, comm=b"initB")
+        self.tB.spawn(2, 4, ppid=1, comm=b"otherB")
+        self.tB.rootfiles.update(self.t.rootfiles)
+        self.vk.mount("/vprocB", self.tB)
         self.tick = 10
         self.handles = []
         self.records = []       # one dict per op: op, result, events (sink events during the op)
@@ -215,6 +221,17 @@ class World:
             rec["model"] = sorted(t.procs)
         elif kind == "boot":
             rec["res"] = self._call(ps.boot_time)
+        elif kind == "visit":         # ("visit", what): the program looks at another procfs for a moment and comes back
+            ps.PROCFS_PATH = "/vprocB"
+            try:
+                if op[1] == "boot":
+                    rec["res"] = self._call(ps.boot_time)
+                elif op[1] == "proc":
+                    rec["res"] = self._call(lambda: ps.Process(1).create_time())
+                else:
+                    rec["res"] = self._call(lambda: ps.pid_exists(2))
+            finally:
+                ps.PROCFS_PATH = "/vproc"
         elif kind == "sig":           # ("sig", h, kind, signo)
             h = self.handles[op[1]]
             k = op[2]
